@@ -161,7 +161,15 @@ class PreprocessorData:
         return self.result_ops, self.labels
 
     def insert_segment(self, next_segment_start: int) -> None:
-        self.labels[f'{wflip_start_label}{self.curr_segment_index}'] = self.curr_address
+        wflip_area_label = f'{wflip_start_label}{self.curr_segment_index}'
+        if wflip_area_label in self.labels:
+            # a source label spelled like this assembler-internal label would be silently overwritten
+            macro_resolve_error(
+                self.curr_tree,
+                f'label declared twice - "{wflip_area_label}" on '
+                f'{self.labels_code_positions.get(wflip_area_label)} is also an assembler-internal label',
+            )
+        self.labels[wflip_area_label] = self.curr_address
         self.curr_segment_index += 1
 
         self.patch_last_wflip_address()
@@ -181,7 +189,7 @@ class PreprocessorData:
             address = self.curr_address
 
         if label in self.labels:
-            other_position = self.labels_code_positions[label]
+            other_position = self.labels_code_positions.get(label, 'an assembler-internal label')
             macro_resolve_error(
                 self.curr_tree, f'label declared twice - "{label}" on ' f'{code_position} and {other_position}'
             )
